@@ -27,11 +27,15 @@ type C06Scenario struct {
 	// fault engine only: N consecutive failing writes starting at write attempt I
 	FaultAt int `json:"fault_at,omitempty"`
 	FaultN  int `json:"fault_n,omitempty"`
+	// FaultOp > 0: the window is armed right before operation number FaultOp-1 instead of at the start, so that
+	// FaultAt counts the write attempts of that operation (a deletion, mostly)
+	FaultOp int `json:"fault_op,omitempty"`
 }
 
 var c06OpKinds = []string{
 	"append_next", "append_next", "append_next", "append_next", "append_gap", "append_fill", "sync",
 	"delete_prefix", "delete_prefix", "delete_suffix", "delete_whole", "restart_new", "restart_stopstart", "stop_during_sync",
+	"read", "read",
 }
 
 func genC06(t *rapid.T) C06Scenario {
@@ -53,6 +57,21 @@ func genC06Faults(t *rapid.T) C06Scenario {
 	s := genC06(t)
 	s.FaultAt = rapid.IntRange(0, 16).Draw(t, "fault_at")
 	s.FaultN = rapid.SampledFrom([]int{1, 2, 3, 5}).Draw(t, "fault_n")
+	// half of the time aim at one operation of the history, preferably a deletion
+	if rapid.Bool().Draw(t, "aim") {
+		var dels []int
+		for i, op := range s.Ops {
+			if strings.HasPrefix(op.Op, "delete_") {
+				dels = append(dels, i)
+			}
+		}
+		if len(dels) > 0 && rapid.IntRange(0, 3).Draw(t, "aim_delete") > 0 {
+			s.FaultOp = 1 + rapid.SampledFrom(dels).Draw(t, "fault_op_del")
+		} else {
+			s.FaultOp = 1 + rapid.IntRange(0, len(s.Ops)-1).Draw(t, "fault_op")
+		}
+		s.FaultAt = rapid.IntRange(0, 8).Draw(t, "fault_at_rel")
+	}
 	return s
 }
 
@@ -130,6 +149,10 @@ func c06RunHistory(s C06Scenario, e *storeEnv, res *Result, faults bool) (hist *
 	sinceSync := false
 	for i, op := range s.Ops {
 		tag := fmt.Sprintf("op#%d %s", i, op.Op)
+		if faults && s.FaultOp == i+1 {
+			synctest.Wait() // earlier appends have reached the datastore: the window counts this operation's writes
+			e.mem.SetFaults(s.FaultAt, s.FaultN)
+		}
 		switch op.Op {
 		case "append_next", "append_gap", "append_fill":
 			hs := resolveAppend(e.m, op, s.Base)
@@ -142,6 +165,15 @@ func c06RunHistory(s C06Scenario, e *storeEnv, res *Result, faults bool) (hist *
 			}
 			e.m.appendBatch(hs)
 			sinceSync = true
+		case "read":
+			// read everything that is stored by height and by hash: fills the header and index caches
+			for _, h := range e.m.heights() {
+				c1, cn := vctx(time.Second)
+				if g, err := e.st.GetByHeight(c1, h); err == nil {
+					_, _ = e.st.Get(c1, g.Hash())
+				}
+				cn()
+			}
 		case "sync":
 			if err := e.st.Sync(ctx); err != nil && !faults {
 				fail("%s: Sync failed: %v", tag, err)
@@ -450,7 +482,9 @@ func runC06Faults(t *testing.T, s C06Scenario) (res Result) {
 			res.failf("opening a fresh store failed: %v", err)
 			return
 		}
-		e.mem.SetFaults(s.FaultAt, s.FaultN)
+		if s.FaultOp == 0 {
+			e.mem.SetFaults(s.FaultAt, s.FaultN)
+		}
 		hist, _ := c06RunHistory(s, e, &res, true)
 		failed := e.mem.FailedWrites()
 		e.mem.ClearFaults()
